@@ -9,7 +9,7 @@
    of X, Y and scalars R.  [nonincr phi s l] says phi never increases along s :: l.
    Iteration counts, budgets, dimensions and problem data are universally quantified. *)
 From Coq Require Import Reals List Bool.
-From Verif Require Import Base.Num Base.Vec C12.Model C12.Proofs.
+From Verif Require Import Base.Num Base.Vec C12.Model C12.Proofs Gen.SolversC12 C12.Bridge.
 Import ListNotations.
 Local Open Scope R_scope.
 
@@ -118,12 +118,13 @@ Proof. intros X A Hs; exact (krylov_step X A Hs). Qed.
    giving cg_on_lists_exact_after_n_steps with no abstract premise left *)
 
 (* -------------------------------------------- CG on the normal equations *)
-(* residual |b - A x|^2 never increases (any A with adjoint, any b, start, budget) *)
+(* residual |b - A x|^2 never increases (any A with adjoint, any b, start, budget, and any value of
+   the relative stopping constant eps2 = np.finfo(float).eps ** 2) *)
 Theorem cgn_residual_nonincreasing :
-  forall (X Y : IPS) (A : LinOp X Y) (b : Y) (x : X) (n : nat),
+  forall (X Y : IPS) (A : LinOp X Y) (eps2 : R) (b : Y) (x : X) (n : nat),
   nonincr (fun s => nsq (b -' A (n_x X Y s)))
-          (cgn_init X Y inner vplus smul A (adj A) b x)
-          (cgn_run X Y vplus smul inner vplus smul inner A (adj A) b x n).
+          (cgn_init X Y inner vplus smul A (adj A) eps2 b x)
+          (cgn_run X Y vplus smul inner vplus smul inner A (adj A) eps2 b x n).
 Proof. exact cgn_residual_all. Qed.
 Print Assumptions cgn_residual_nonincreasing.
 
@@ -429,6 +430,164 @@ Proof.
   exact (cg_lists_exact n w H1 H2 M HM Hsa Hpd b xs x k Hb Hxs Hx Hsol Hk).
 Qed.
 Print Assumptions cg_on_lists_exact_after_n_steps.
+
+(* ===================================================== tie to the source: regenerated code *)
+(* (1) translate/solvers_c12.py re-emits the loop bodies of conjugate_gradient,
+   conjugate_gradient_normal, power_method_opnorm and forward_backward_pd from /repo on every run
+   (Gen/SolversC12.v, symbolic execution with object identity); the models used above ARE those
+   functions, over every inner-product space.  An edit of one of these loop bodies breaks a proof here. *)
+Theorem regenerated_cg_is_the_model :
+  forall (X : IPS) (A : X -> X) (b x : X) (n : nat),
+  match gen_cg_start X vplus smul inner A b x with
+  | None => [] | Some s => otrace (gen_cg_step X vplus smul inner A) n s end
+  = cg_run X vplus smul inner A b x n.
+Proof. exact gen_cg_run_is_model. Qed.
+Theorem regenerated_cgn_is_the_model :
+  forall (X Y : IPS) (A : X -> Y) (At : Y -> X) (eps2 : R) (b : Y) (x : X) (n : nat),
+  otrace (gen_cgn_step X Y vplus smul inner vplus smul inner A At) n (gen_cgn_start X Y inner vplus smul A At eps2 b x)
+  = cgn_run X Y vplus smul inner vplus smul inner A At eps2 b x n.
+Proof. exact gen_cgn_run_is_model. Qed.
+Theorem regenerated_power_method_is_the_model :
+  forall (X Y : IPS) (A : X -> Y) (At : Y -> X) (S : X -> X) (x : X),
+  gen_pm_normal_step X Y smul inner sqrt A At x = pmn_step X smul inner sqrt (fun z => At (A z)) x /\
+  gen_pm_selfadjoint_step X smul inner sqrt S x = pmn_step X smul inner sqrt S x.
+Proof. intros; split; [apply gen_pm_normal_step_is_model | apply gen_pm_selfadjoint_step_is_model]. Qed.
+Theorem regenerated_forward_backward_is_the_model :
+  forall (X Y : IPS) (proxF : R -> X -> X) (gradH : X -> X),
+  exists alias : bool, forall (bs : list (pblk X Y)) (tau : R) (s : X * list Y),
+  gen_fb_step X Y vplus smul vplus smul proxF gradH (map (mk X Y) bs) tau s
+  = fb_step X Y vplus smul vplus smul alias proxF gradH (map (mk X Y) bs) tau s.
+Proof. exact gen_fb_step_is_model. Qed.
+Print Assumptions regenerated_forward_backward_is_the_model.
+
+Theorem regenerated_douglas_rachford_is_the_model :
+  forall (X Y : IPS) (proxF : R -> X -> X) (bs : list (pblk X Y)) (tau lam : R) (s : X * list Y),
+  gen_dr_step X Y vplus smul vplus smul proxF (map (mk X Y) bs) tau lam s
+  = dr_step X Y vplus smul vplus smul proxF (map (mk X Y) bs) tau lam s /\
+  gen_dr_p1 X Y vplus smul proxF (map (mk X Y) bs) tau s = dr_p1 X Y vplus smul proxF (map (mk X Y) bs) tau s.
+Proof. intros; split; [apply gen_dr_step_is_model | apply gen_dr_p1_is_model]. Qed.
+Print Assumptions regenerated_douglas_rachford_is_the_model.
+(* BacktrackingLineSearch: the loop skeleton is pinned by the translator, its formulas are regenerated *)
+Theorem regenerated_backtracking_is_the_model :
+  forall (X : IPS) (f : X -> R) (tau disc : R) (mni : nat) (est : bool) (alpha_st : R) (x d : X) (dd fx : R) (k : nat) (alpha : R),
+  bt_search X vplus smul f tau disc mni est alpha_st x d dd
+  = (if gen_bt_zero_derivative dd then LsZeroDeriv
+     else bt_loop X vplus smul f x d (f x) dd tau disc (S mni) (gen_bt_alpha0 est alpha_st dd)) /\
+  bt_loop X vplus smul f x d fx dd tau disc (S k) alpha
+  = (let fval := f (gen_bt_point X vplus smul x d alpha) in
+     if gen_bt_accept disc fx dd alpha fval
+     then (if gen_bt_assert fx fval then LsOk alpha else LsAssert)
+     else bt_loop X vplus smul f x d fx dd tau disc k (gen_bt_next tau alpha)).
+Proof. intros; split; [apply gen_bt_search_is_model | apply gen_bt_loop_is_model]. Qed.
+
+(* composed: the C12 clauses stated directly about the regenerated functions *)
+Theorem regenerated_cg_energy_error_nonincreasing :
+  forall (X : IPS) (A : LinOp X X),
+  (forall x y : X, <<A x, y>> = <<x, A y>>) -> (forall x : X, 0 <= <<x, A x>>) ->
+  forall (b xs x : X) (n : nat), A xs = b ->
+  nonincr (fun s => <<cg_x X s -' xs, A (cg_x X s -' xs)>>)
+          (cg_init X vplus smul inner A b x)
+          (match gen_cg_start X vplus smul inner A b x with
+           | None => [] | Some s => otrace (gen_cg_step X vplus smul inner A) n s end).
+Proof. intros X A Hs Hp b xs x n Hxs. rewrite gen_cg_run_is_model. apply cg_energy_all; auto. Qed.
+Print Assumptions regenerated_cg_energy_error_nonincreasing.
+Theorem regenerated_cgn_residual_nonincreasing :
+  forall (X Y : IPS) (A : LinOp X Y) (eps2 : R) (b : Y) (x : X) (n : nat),
+  nonincr (fun s => nsq (b -' A (n_x X Y s)))
+          (gen_cgn_start X Y inner vplus smul A (adj A) eps2 b x)
+          (otrace (gen_cgn_step X Y vplus smul inner vplus smul inner A (adj A)) n
+                  (gen_cgn_start X Y inner vplus smul A (adj A) eps2 b x)).
+Proof. intros. rewrite gen_cgn_run_is_model, gen_cgn_start_is_model. apply cgn_residual_all. Qed.
+Theorem regenerated_forward_backward_solution_is_fixed_point :
+  forall (X Y : IPS) (f : cfun X) (proxF : R -> X -> X),
+  convex X f -> prox_of X f proxF ->
+  forall (gradH : X -> X) (bs : list (pblk X Y)) (tau : R) (xs : X) (vs : list Y),
+  0 < tau ->
+  Forall (fun b => convex Y (pgc X Y b) /\ prox_of Y (pgc X Y b) (pprox X Y b) /\ 0 < psig X Y b) bs ->
+  subgrad X f xs ((- (1)) *' sum_adj X Y vplus (map (mk X Y) bs) vs (gradH xs)) ->
+  Forall2 (fun b v => subgrad Y (pgc X Y b) v (pA X Y b xs)) bs vs ->
+  gen_fb_step X Y vplus smul vplus smul proxF gradH (map (mk X Y) bs) tau (xs, vs) = (xs, vs).
+Proof.
+  intros X Y f proxF Hf HP gradH bs tau xs vs Ht Hok Kf Kd.
+  destruct (gen_fb_step_is_model X Y proxF gradH) as [alias E]. rewrite E.
+  apply (forward_backward_fixed_point X Y f proxF); auto; split; auto.
+Qed.
+Print Assumptions regenerated_forward_backward_solution_is_fixed_point.
+
+Theorem regenerated_douglas_rachford_solution_is_fixed_point :
+  forall (X Y : IPS) (f : cfun X) (proxF : R -> X -> X),
+  convex X f -> prox_of X f proxF ->
+  forall (bs : list (pblk X Y)) (tau lam : R) (xs : X) (vss : list Y) (xh : X),
+  0 < tau ->
+  Forall (fun b => convex Y (pgc X Y b) /\ prox_of Y (pgc X Y b) (pprox X Y b) /\ 0 < psig X Y b) bs ->
+  subgrad X f xs ((- (1)) *' adjsum X Y bs vss) ->
+  Forall2 (fun b v => subgrad Y (pgc X Y b) v (pA X Y b xs)) bs vss ->
+  xh +' (- (tau / 2)) *' adjsum X Y bs (vhat X Y bs xh vss) = xs +' tau *' ((- (1)) *' adjsum X Y bs vss) ->
+  gen_dr_p1 X Y vplus smul proxF (map (mk X Y) bs) tau (xh, vhat X Y bs xh vss) = xs /\
+  gen_dr_step X Y vplus smul vplus smul proxF (map (mk X Y) bs) tau lam (xh, vhat X Y bs xh vss)
+  = (xh, vhat X Y bs xh vss).
+Proof.
+  intros X Y f proxF Hf HP bs tau lam xs vss xh Ht Hok Kf Kd C1.
+  rewrite gen_dr_p1_is_model, gen_dr_step_is_model.
+  exact (douglas_rachford_fixed_point X Y f proxF Hf HP bs tau lam xs vss xh Ht Hok Kf Kd C1).
+Qed.
+Print Assumptions regenerated_douglas_rachford_solution_is_fixed_point.
+(* power method: every x_norm of the regenerated step is bounded, |x| = 1 is preserved *)
+Theorem regenerated_power_method_step_bounded :
+  forall (X Y : IPS) (A : LinOp X Y) (K : R) (x : X) (nrm : R) (x' : X),
+  0 <= K -> bounded X Y A (K * K) -> nsq x = 1 ->
+  gen_pm_normal_step X Y smul inner sqrt A (adj A) x = Some (nrm, x') ->
+  0 <= nrm <= K * K /\ nsq x' = 1.
+Proof. exact gen_pm_normal_step_bounded. Qed.
+
+(* (2) for the solvers C11 translates (translate/solvers.py -> Gen/Solvers.v, heap-level programs run by
+   C11/Interp.v, proved equal to C11's loop models in C11/GenProofs.v): the list instance of each C12
+   step IS C11's model step -- arbitrary operator / proximal / gradient functions, no side conditions *)
+Theorem landweber_model_is_regenerated_model :
+  forall (A At : list R -> list R) (omega : R) (b x : list R),
+  lw_step (list R) (list R) vadd vscal vadd vscal A At omega b x
+  = C11.Model.landweber_step A (fun _ => At) (fun v => v) b omega x.
+Proof. exact landweber_step_is_c11. Qed.
+Theorem kaczmarz_model_is_regenerated_model :
+  forall (blocks : list ((list R -> list R) * (list R -> list R) * list R * R)) (x : list R),
+  kz_sweep (list R) (map (fun q => let '(A, At, b, om) := q in lw_step (list R) (list R) vadd vscal vadd vscal A At om b) blocks) x
+  = C11.Model.kz_step (fun v => v) (map (fun q => let '(A, At, b, om) := q in kz_lin A At b om) blocks) x.
+Proof. exact kaczmarz_sweep_is_c11. Qed.
+Theorem pdhg_model_is_regenerated_model :
+  forall (L Ladj : list R -> list R) (proxF proxGc : R -> list R -> list R) (tau sigma theta : R) (s : @pdst (list R) (list R)),
+  pd_to11 (pdhg_step (list R) (list R) vadd vscal vadd vscal L Ladj proxF proxGc tau sigma theta s)
+  = C11.Model.pdhg_step L Ladj (proxF tau) (proxGc sigma) tau sigma theta (pd_to11 s).
+Proof. exact pdhg_step_is_c11. Qed.
+Theorem admm_model_is_regenerated_model :
+  forall (L Ladj : list R -> list R) (proxF proxG : R -> list R -> list R) (tau sigma : R) (s : @admst (list R) (list R)),
+  ad_to11 (admm_step (list R) (list R) vadd vscal vadd vscal L Ladj proxF proxG tau sigma s)
+  = C11.Model.admm_ref_step L Ladj (proxF tau) (proxG sigma) tau sigma (ad_to11 s).
+Proof. exact admm_step_is_c11. Qed.
+Theorem proximal_gradient_model_is_regenerated_model :
+  forall (proxF : R -> list R -> list R) (gradG : list R -> list R) (gamma : R) (lam : nat -> R) (k : nat) (x : list R),
+  pg_step (list R) vadd vscal proxF gradG gamma (lam k) x = C11.Model.pg_step (proxF gamma) gradG gamma lam k x.
+Proof. exact proximal_gradient_step_is_c11. Qed.
+Theorem accelerated_proximal_gradient_model_is_regenerated_model :
+  forall (proxF : R -> list R -> list R) (gradG : list R -> list R) (gamma rt : R) (s : @apst R (list R)) (k : nat),
+  let s' := apg_step (list R) vadd vscal proxF gradG gamma rt s in
+  (ap_x _ s', ap_y _ s')
+  = C11.Model.apg_step (proxF gamma) gradG gamma (fun _ => (ap_t _ s - 1) / ((1 + rt) / 2)) k (ap_x _ s, ap_y _ s).
+Proof. exact accelerated_proximal_gradient_step_is_c11. Qed.
+
+(* composed, all the way down: landweber as REGENERATED from the source and run by the heap
+   interpreter (op := a matrix, adjoint := its transpose): the callback log has a non-increasing residual *)
+Theorem regenerated_landweber_program_residual_nonincreasing :
+  forall (m n : nat) (M : list (list R)) (Mb omega : R) (b x : list R) (k : nat) (junk : String.string -> list R),
+  wf_mat m n M ->
+  (forall v : list R, length v = n -> wdot (repeat 1 m) (mvec M v) (mvec M v) <= Mb * wdot (repeat 1 n) v v) ->
+  0 <= omega -> omega * Mb <= 2 -> length b = m -> length x = n ->
+  exists s,
+    C11.Interp.run_prog (C11.GenProofs.lw_I (mvec M) (fun _ => mvec (transpose n M)) (fun v => v) omega junk)
+                 Gen.Solvers.landweber_noproj_pre Gen.Solvers.landweber_noproj_body k
+                 (C11.Interp.mk_hst C11.GenProofs.env_lw_in [x; b] []) = Some s
+    /\ nonincr (res_list (repeat 1 m) M b) x (C11.Interp.h_log s).
+Proof. exact regenerated_landweber_residual_nonincreasing. Qed.
+Print Assumptions regenerated_landweber_program_residual_nonincreasing.
 
 (* ------------------------------------------------------------ non-vacuity *)
 (* every hypothesis above is satisfied by concrete objects: the space R, the operator
